@@ -36,6 +36,8 @@ Queries == {[comp |-> c, filter |-> f] : c \in (IF Big THEN CompReqs ELSE SmallC
 Hrefs == {"h1", "h2", "h3"}
 Multigets == {[comp |-> c, hrefs |-> h] : c \in SmallCR, h \in UNION {[1..n -> Hrefs] : n \in 1..3}}
              \cup {[comp |-> c, hrefs |-> <<"h3", "h1">>] : c \in CompReqs}
+             \* documents that are large in size only (beyond 64 KiB): 3 000 hrefs
+             \cup {[comp |-> CHOOSE c \in SmallCR : c.expand = << >>, hrefs |-> [i \in 1..3000 |-> IF i % 3 = 0 THEN "h3" ELSE IF i % 3 = 1 THEN "h1" ELSE "h2"]]}
 
 \* RFC-conformant spellings the library's own client never produces (server direction only): calendar-data without comp
 \* (with and without expand), negate-condition="no" written out
@@ -43,6 +45,11 @@ NoComp(x) == [name |-> "", allprops |-> TRUE, props |-> << >>, allcomps |-> TRUE
 NoCompData(x) == El(DAV, "prop", << >>, <<El(DAV, "getetag", << >>, << >>),
                                          El(CAL, "calendar-data", << >>, Map(x, LAMBDA y : El(CAL, "expand", <<At("start", y.s), At("end", y.e)>>, << >>)))>>)
 AltFs == {f \in TopFs : f.isnd \/ (f.comps # << >> /\ f.comps[1].isnd) \/ (f.comps # << >> /\ ~f.comps[1].isnd /\ f.comps[1].tr # << >> /\ f.comps[1].props = << >> /\ f.comps[1].comps = << >>)}
+\* a collation named on every text-match (the API has no field for it: the request denoted is the same)
+RECURSIVE WithCollation(_, _)
+WithCollation(n, c) == IF IsText(n) THEN n
+                       ELSE [n EXCEPT !.attrs = IF n.name = "text-match" THEN <<At("collation", c)>> \o @ ELSE @,
+                                      !.kids = [i \in 1..Len(n.kids) |-> WithCollation(n.kids[i], c)]]
 RECURSIVE ExplicitNo(_)
 ExplicitNo(n) == IF IsText(n) THEN n
                  ELSE [n EXCEPT !.attrs = IF n.name = "text-match" /\ ~HasAttr(n, "negate-condition") THEN @ \o <<At("negate-condition", "no")>> ELSE @,
@@ -51,6 +58,14 @@ AltQueries == {[q |-> [comp |-> NoComp(x), filter |-> f], srvonly |-> TRUE,
                 doc |-> El(CAL, "calendar-query", << >>, <<NoCompData(x), El(CAL, "filter", << >>, <<CompFDoc(f)>>)>>)] : x \in Expands, f \in AltFs}
               \cup {[q |-> [comp |-> c, filter |-> f], srvonly |-> TRUE, doc |-> ExplicitNo(QueryDoc([comp |-> c, filter |-> f]))] :
                       c \in {CHOOSE c \in SmallCR : c.expand = << >>}, f \in {g \in TopFs : ExplicitNo(CompFDoc(g)) # CompFDoc(g)}}
+              \cup {[q |-> [comp |-> c, filter |-> f], srvonly |-> TRUE, doc |-> WithCollation(QueryDoc([comp |-> c, filter |-> f]), col)] :
+                      col \in {"i;ascii-casemap", "i;octet"}, c \in {CHOOSE c \in SmallCR : c.expand # << >>},
+                      f \in {g \in TopFs : WithCollation(CompFDoc(g), "c") # CompFDoc(g)}}
+\* a match text of 100 000 characters (token "tbig")
+BigTextQ == [comp |-> CHOOSE c \in SmallCR : c.expand = << >>,
+             filter |-> [name |-> "VCALENDAR", isnd |-> FALSE, tr |-> NoTR, props |-> << >>,
+                         comps |-> <<[name |-> "VEVENT", isnd |-> FALSE, tr |-> NoTR, comps |-> << >>,
+                                      props |-> <<[name |-> "n1", isnd |-> FALSE, tr |-> NoTR, tm |-> <<[text |-> "tbig", neg |-> FALSE]>>, params |-> << >>]>>]>>]]
 AltMultigets == {[m |-> [comp |-> NoComp(x), hrefs |-> h], srvonly |-> TRUE,
                   doc |-> El(CAL, "calendar-multiget", << >>, <<NoCompData(x)>> \o Map(h, LAMBDA y : El(DAV, "href", << >>, <<Txt(y)>>))) ] : x \in Expands, h \in {<<"h1">>, <<"h3", "h1">>}}
 
@@ -74,14 +89,14 @@ InvalidDocs ==
                                                                      El(CAL, "filter", << >>, <<CompFDoc(Q0.filter)>>)>>)})
 
 \* ---------- F0
-ASSUME \A q \in Queries : QueryShape(QueryDoc(q)) /\ QueryOrder(QueryDoc(q)) /\ QueryDenotes(QueryDoc(q)) = q
+ASSUME \A q \in Queries \cup {BigTextQ} : QueryShape(QueryDoc(q)) /\ QueryOrder(QueryDoc(q)) /\ QueryDenotes(QueryDoc(q)) = q
 ASSUME \A m \in Multigets : MultigetShape(MultigetDoc(m)) /\ MultigetDenotes(MultigetDoc(m)) = m
 ASSUME \A a \in AltQueries : QueryShape(a.doc) /\ QueryOrder(a.doc) /\ QueryDenotes(a.doc) = a.q
 ASSUME \A a \in AltMultigets : MultigetShape(a.doc) /\ MultigetDenotes(a.doc) = a.m
 ASSUME AltQueries # {} /\ \E a \in AltQueries : a.q.comp.name # ""
 
 Out == IOEnv.OUT
-ASSUME ndJsonSerialize(Out \o "/queries.ndjson", SetToSeq(AltQueries) \o SetToSeq({[q |-> q, doc |-> QueryDoc(q), srvonly |-> FALSE] : q \in Queries}))
+ASSUME ndJsonSerialize(Out \o "/queries.ndjson", SetToSeq(AltQueries) \o SetToSeq({[q |-> q, doc |-> QueryDoc(q), srvonly |-> FALSE] : q \in Queries \cup {BigTextQ}}))
 ASSUME ndJsonSerialize(Out \o "/multigets.ndjson", SetToSeq(AltMultigets) \o SetToSeq({[m |-> m, doc |-> MultigetDoc(m), srvonly |-> FALSE] : m \in Multigets}))
 ASSUME ndJsonSerialize(Out \o "/invalid.ndjson", SetToSeq(InvalidDocs))
 ASSUME PrintT(<<"COUNTS", Cardinality(Queries) + Cardinality(AltQueries), Cardinality(Multigets) + Cardinality(AltMultigets), Cardinality(InvalidDocs)>>)
